@@ -1199,6 +1199,16 @@ class ClientObservation:
 
         This is the preferred interface to obtaining observations."""
         it = self._Iterator()
+        if (
+            self.cancelled
+            and self._cancellation_reason is not None
+            and self._latest_response is not None
+        ):
+            # The observation has already ended (register_callback has nothing
+            # to register with then). Like on a live observation, the latest
+            # response is still handed out first: it may be the final response
+            # that arrived before the iteration started.
+            it.push(self._latest_response)
         self.register_callback(it.push, _suppress_deprecation=True)
         self.register_errback(it.push_err, _suppress_deprecation=True)
         return it
